@@ -11,7 +11,9 @@ import (
 func init() { runners["C15"] = runC15 }
 
 var c15Values = []string{"a", "a", "a-1", "a-1-1", "a-2", "A", " a ", "a b", "a_b", "a-b", "", "   ", "!!!", "あ", "é", "heading", "heading-1", "id", "1", "-", "--", "x\x80y", "x\xe3y", "\xff",
-	strings.Repeat("long-heading-text-", 5), strings.Repeat("z", 70), "b", "b", "B", "\tb\n", "c d e", "C D E", "c-d-e"}
+	strings.Repeat("long-heading-text-", 5), strings.Repeat("z", 70), "b", "b", "B", "\tb\n", "c d e", "C D E", "c-d-e",
+	// numbered and prefixed headings: the same slug behind different digit / hyphen / punctuation prefixes
+	"1 a", "2 a", "1. a", "-a", "1-a", "a 1", "1 heading", "2. heading", "2024 b", "10 b", "b 10", "b-10", "1 1", "1-1", "-1", "_a", "a_", "*a*", "`a`", "[a](u)", "a&amp;b", "a&b", "&#97;", "\\a", "a\\-1", "<b>a</b>", "a<!--x-->", "ａ", "a\u00a0b", "a\u3000b", "İ", "ǅ", "ß", "SS", "ss"}
 
 func headingIDs(out []byte) (ids []string, missing int, errs []string) {
 	toks, errs := scanHTML(out)
@@ -94,7 +96,9 @@ func runC15(c *Ctx) {
 			return "# " + v + "\n\n"
 		}
 	}
-	cfgs := []Cfg{{Ext: "core", AutoID: true}, {Ext: "gfm", AutoID: true, XHTML: true}, {Ext: "all", AutoID: true}}
+	cfgs := []Cfg{{Ext: "core", AutoID: true}, {Ext: "gfm", AutoID: true, XHTML: true}, {Ext: "all", AutoID: true},
+		{Ext: "core", AutoID: true, XHTML: true}, {Ext: "core", AutoID: true, Unsafe: true, HardWraps: true}, {Ext: "all", AutoID: true, XHTML: true, Unsafe: true},
+		{Ext: "typo", AutoID: true}, {Ext: "cjk", AutoID: true, XHTML: true, HardWraps: true}, {Ext: "footnote", AutoID: true, XHTML: true}}
 	nd := 1500
 	if !c.Quick() {
 		nd = 30000
